@@ -88,7 +88,8 @@ def read_sys_comment(t, i, a):
     """
     try:
         j = t[i:].index(a)
-        while t[i+j+1:].startswith(a):
+        # an empty marker matches at every position: without the guard this loop never ends
+        while a and t[i+j+1:].startswith(a):
             j += 1
         return i + j + len(a)
     except ValueError:
